@@ -194,6 +194,7 @@ func evaluate(c *fw.Ctx, id string, d *logical.Doc, format string, neutral map[s
 		// 3. the format reader's own Markdown()
 		var md2 string
 		var err2 error
+		var doc2 *model.Document
 		if format == "docx" {
 			r, e := docx.Open(path)
 			if e != nil {
@@ -206,6 +207,7 @@ func evaluate(c *fw.Ctx, id string, d *logical.Doc, format string, neutral map[s
 				r.ModelTables()
 				r.Lists()
 				md2, err2 = r.Markdown()
+				doc2, _ = r.Document() // the model from a reader that has already rendered Markdown
 				r.Close()
 			}
 		} else {
@@ -219,8 +221,14 @@ func evaluate(c *fw.Ctx, id string, d *logical.Doc, format string, neutral map[s
 				r.ModelTables()
 				r.Lists()
 				md2, err2 = r.Markdown()
+				doc2, _ = r.Document()
 				r.Close()
 			}
+		}
+		if doc2 != nil {
+			lin, ps := compareModel(d, units, doc2)
+			add("Reader.Document() after Markdown()", c15.TraceTokens(lin, sk, c15.TraceOpts{Foreign: foreign}))
+			add("Reader.Document() after Markdown()", ps)
 		}
 		if err2 != nil {
 			add("Reader.Markdown()", []c15.Problem{{Class: "error", What: err2.Error()}})
